@@ -8,12 +8,38 @@ from props import datasets as dsm
 from props import tables
 from props.c01 import additive_utility
 
-RULE = ("JointUtility(u1..uk; weights incl. negative, zero, non-normalised, k = 1-3) with components accuracy / ROC-AUC (binary) / random additive table utilities: "
+RULE = ("JointUtility(u1..uk; weights incl. negative, zero, non-normalised, k = 1-3, handed over as list / tuple / ndarray / dict values view / generator expression / "
+        "map object / list iterator / zip-derived iterator, i.e. re-iterable and one-shot Iterable[float]; the scalar API is also compared across ALL these forms) with components accuracy / ROC-AUC (binary) / random additive table utilities: "
         "(a) its score, null_score, mean_score, elementwise_score, elementwise_null_score vs the weighted sums of the components' (and vs the Lean model Ds.Util.joint*); "
         "(b) neighbor scores (K=1 default and map/fork provenance; K=2 and conjunctive provenance through the ADD path) under the joint utility vs the weighted sum of the "
         "scores under each component, and vs the model; (c) bruteforce with table utilities (no failing coalition) likewise; (d) scaling a utility by a constant scales "
         "the scores, adding a constant to utility and null changes nothing. Non-trivial = >= 2 components with different score vectors and a weight outside {0,1}; "
         "distinct = distinct (dataset, utilities, weights).")
+
+
+WEIGHT_FORMS = ("list", "tuple", "ndarray", "dict-values", "generator", "map", "iter-list", "zip-derived")
+
+
+def weights_as(rng, ws, form=None):
+    """the same weights in one of the forms the parameter (Optional[Iterable[float]]) admits: re-iterable containers (list, tuple, ndarray, dict values view)
+    and ONE-SHOT iterables (generator expression, map object, list iterator, iterator derived from zip); returns (object, form name)"""
+    fl = [float(w) for w in ws]
+    form = form or rng.choice(WEIGHT_FORMS)
+    if form == "list":
+        return list(fl), form
+    if form == "tuple":
+        return tuple(fl), form
+    if form == "ndarray":
+        return np.array(fl, dtype=float), form
+    if form == "dict-values":
+        return {("w%d" % i): x for i, x in enumerate(fl)}.values(), form
+    if form == "generator":
+        return (x for x in fl), form
+    if form == "map":
+        return map(float, list(ws)), form
+    if form == "iter-list":
+        return iter(list(fl)), form
+    return (x for _, x in zip(range(len(fl)), fl)), form
 
 
 def run(ctx):
@@ -53,11 +79,13 @@ def run(ctx):
             Stub.extra = staticmethod(extra)
             return Stub()
         stubs = [stub(v) for v in stub_vals]
-        js = U.JointUtility(*stubs, weights=[float(w) for w in ws])
+        # the weights are handed over in every form an Iterable[float] may take (cycled here so that each form occurs; drawn at random in the other parts)
+        wobj, wform = weights_as(rng, ws, WEIGHT_FORMS[it % len(WEIGHT_FORMS)])
         Xs = np.zeros((2, 1))
         ys = np.zeros(2, dtype=int)
-        scase = dict(part="joint-scalar", weights=[str(w) for w in ws], components=[[str(x) for x in v] for v in stub_vals])
+        scase = dict(part="joint-scalar", weights=[str(w) for w in ws], weights_form=wform, components=[[str(x) for x in v] for v in stub_vals])
         try:
+            js = U.JointUtility(*stubs, weights=wobj)
             got3 = (float(js(Xs, ys, Xs, ys, null_score=123.0).score), float(js.null_score(Xs, ys, Xs, ys)), float(js.mean_score(Xs, ys, Xs, ys)))
             want3 = tuple(float(sum(w * v[t] for w, v in zip(ws, stub_vals))) for t in range(3))
             # second training set (labels sum to 3), SAME validation objects, SAME JointUtility object
@@ -70,6 +98,16 @@ def run(ctx):
             ctx.case(scase, nontrivial=(k >= 2 and any(w not in (0, 1) for w in ws)), sample=scase, part="joint-scalar", k=k, zero_weight=any(w == 0 for w in ws))
             if any(abs(a - b) > 1e-9 for a, b in zip(got3, want3)):
                 ctx.mismatch("JointUtility score / null_score / mean_score is not the weighted sum of the components'", scase, impl=got3, spec=want3)
+            # the same weights in every other form: same weighted sums
+            for f in WEIGHT_FORMS:
+                if f == wform:
+                    continue
+                jf = U.JointUtility(*stubs, weights=weights_as(rng, ws, f)[0])
+                gotf = (float(jf(Xs, ys, Xs, ys, null_score=123.0).score), float(jf.null_score(Xs, ys, Xs, ys)), float(jf.mean_score(Xs, ys, Xs, ys)))
+                if any(abs(a - b) > 1e-9 for a, b in zip(gotf, want3)):
+                    ctx.mismatch("JointUtility score / null_score / mean_score depends on the form in which the weights are passed", dict(scase, weights_form=f),
+                                 impl=gotf, spec=want3)
+                    break
             # non-default metadata / seed / maxiter must reach every component
             mt, mv = np.array([rng.randrange(1, 5), rng.randrange(1, 5)]), np.array([rng.randrange(1, 5), rng.randrange(1, 5)])
             sd, mi = rng.choice([0, 1, 3, 11, 12345]), rng.choice([1, 25, 40, 250])
@@ -108,10 +146,11 @@ def run(ctx):
                     nl = [rng.randrange(-8, 9) for _ in range(m)]
                     comps.append(additive_utility(I, Um, nl))
                     specs.append({"utility": "custom", "util": Um, "nulls": nl})
-            case = dict(part=part, weights=[str(w) for w in ws], comps=[s["utility"] for s in specs], groups=ds["groups"], mode=ds["mode"],
+            wobj, wform = weights_as(rng, ws)
+            case = dict(part=part, weights=[str(w) for w in ws], weights_form=wform, comps=[s["utility"] for s in specs], groups=ds["groups"], mode=ds["mode"],
                         y_train=ds["y_train"], y_test=ds["y_test"], dist=ds["dist"].tolist())
-            joint = U.JointUtility(*comps, weights=[float(w) for w in ws])
             try:
+                joint = U.JointUtility(*comps, weights=wobj)
                 if part == "joint-api":
                     X = np.arange(ds["n_rows"], dtype=float).reshape(-1, 1)
                     Xv = np.arange(m, dtype=float).reshape(-1, 1)
@@ -182,10 +221,11 @@ def run(ctx):
             ws = ws[:2] if len(ws) >= 2 else ws + [Fraction(3, 2)]
             tabs = [([[rng.randrange(-8, 9)] for _ in classes], [rng.randrange(-8, 9)]) for _ in range(k)]
             comps = [additive_utility(I, Um, nl) for Um, nl in tabs]
-            joint = U.JointUtility(*comps, weights=[float(w) for w in ws])
+            wobj, wform = weights_as(rng, ws)
             ds = dict(dist=dist, y_train=y_train, y_test=y_test)
-            case = dict(part=part, weights=[str(w) for w in ws], rows=rows, nUnits=n_units, K=K, y_train=y_train, y_test=y_test, dist=dist.tolist(), tables=tabs)
+            case = dict(part=part, weights=[str(w) for w in ws], weights_form=wform, rows=rows, nUnits=n_units, K=K, y_train=y_train, y_test=y_test, dist=dist.tolist(), tables=tabs)
             try:
+                joint = U.JointUtility(*comps, weights=wobj)
                 sj = dsm.neighbor_scores(I, ds, joint, K=K, provenance=prov)
                 ss = [dsm.neighbor_scores(I, ds, cmp, K=K, provenance=prov) for cmp in comps]
             except Exception as e:  # noqa
@@ -202,14 +242,15 @@ def run(ctx):
             tabs = [tables.rand_table(rng, exprs, n_units, p_fail=0.0) for _ in range(k)]
             nulls = [Fraction(rng.randrange(-8, 9), 2) for _ in range(k)]
             comps = [tables.make_table_utility(I, t, nl, mean=0) for t, nl in zip(tabs, nulls)]
-            joint = U.JointUtility(*comps, weights=[float(w) for w in ws])
+            wobj, wform = weights_as(rng, ws)
             X = np.arange(len(exprs), dtype=float).reshape(-1, 1)
             y = np.zeros(len(exprs), dtype=int)
-            case = dict(part=part, weights=[str(w) for w in ws], nUnits=n_units, exprs=exprs, tables=[tables.table_json(t) for t in tabs], nulls=[str(x) for x in nulls])
+            case = dict(part=part, weights=[str(w) for w in ws], weights_form=wform, nUnits=n_units, exprs=exprs, tables=[tables.table_json(t) for t in tabs], nulls=[str(x) for x in nulls])
 
             def bf(u):
                 return list(np.asarray(I["imp"].ShapleyImportance(method="bruteforce", utility=u).fit(X, y, provenance=prov).score(np.zeros((1, 1)), np.zeros(1, dtype=int)), dtype=float))
             try:
+                joint = U.JointUtility(*comps, weights=wobj)
                 sj = bf(joint)
                 ss = [bf(cmp) for cmp in comps]
             except Exception as e:  # noqa
